@@ -128,9 +128,10 @@ func subEff(a, b etype) bool { // a usable where b is expected
 }
 
 type r10env struct {
-	p    *core.Prog
-	memo map[ssa.Value]etype
-	busy map[ssa.Value]bool
+	inferBusy map[*ssa.Function]bool
+	p         *core.Prog
+	memo      map[ssa.Value]etype
+	busy      map[ssa.Value]bool
 }
 
 func (e *r10env) declared(f *ssa.Function) etype {
@@ -334,7 +335,9 @@ func (e *r10env) callResult(c *ssa.Call) (etype, bool) {
 	}
 	t, ok := r10Getter[core.FuncKey(sc)]
 	if !ok {
-		return "", false
+		// a helper that is not in the table (extracted from a getter, say): its result has the effect type
+		// of what it returns, if all its returns agree
+		return e.inferGetter(sc)
 	}
 	switch t {
 	case "=arg1":
@@ -349,6 +352,45 @@ func (e *r10env) callResult(c *ssa.Call) (etype, bool) {
 		return "", false
 	}
 	return t, true
+}
+
+// inferGetter: the common effect type of the fold function values a module
+// function returns as its first result (nil results ignored).
+func (e *r10env) inferGetter(f *ssa.Function) (etype, bool) {
+	if f.Blocks == nil || !e.p.InModule(f) || f.Signature.Results().Len() == 0 || !isFuncOrPtrToFunc(f.Signature.Results().At(0).Type()) {
+		return "", false
+	}
+	if e.inferBusy == nil {
+		e.inferBusy = map[*ssa.Function]bool{}
+	}
+	if e.inferBusy[f] {
+		return "", false
+	}
+	e.inferBusy[f] = true
+	defer delete(e.inferBusy, f)
+	var common etype
+	for _, b := range f.Blocks {
+		for _, in := range b.Instrs {
+			ret, ok := in.(*ssa.Return)
+			if !ok {
+				continue
+			}
+			rv := ret.Results[0]
+			if isNilConst(rv) {
+				continue
+			}
+			t, ok := e.typeOf(rv)
+			if !ok {
+				return "", false
+			}
+			if common == "" {
+				common = t
+			} else if common != t {
+				return "", false
+			}
+		}
+	}
+	return common, common != ""
 }
 
 // ---- automaton ----
@@ -797,7 +839,7 @@ func lenRoot(v ssa.Value) (root ssa.Value, lenVal ssa.Value) {
 	if b, ok := c.Common().Value.(*ssa.Builtin); ok && b.Name() == "len" {
 		return c.Common().Args[0], c
 	}
-	if sc := c.Common().StaticCallee(); sc != nil && funcPkgPath(sc) == "reflect" && sc.Name() == "Len" {
+	if sc := c.Common().StaticCallee(); sc != nil && funcPkgPath(sc) == "reflect" && core.FuncName(sc) == "Len" {
 		return c.Common().Args[0], c
 	}
 	return nil, nil
@@ -954,7 +996,7 @@ func typeAnnounce(p *core.Prog, r *core.Result, f *ssa.Function) {
 	if !ok {
 		return
 	}
-	if f.Name() == "OnBytes" {
+	if core.FuncName(f) == "OnBytes" {
 		want = [2]string{"ByteType", "OnByte"}
 	}
 	root := p.SPkgs["structform"]
@@ -1043,7 +1085,7 @@ func R10(p *core.Prog) *core.Result {
 		}
 		checked++
 		runR10(p, r, env, f, decl, fkey)
-		if core.FuncPkg(f).Name() == "structform" && (strings.HasSuffix(f.Name(), "Array") || strings.HasSuffix(f.Name(), "Object") || f.Name() == "OnBytes") {
+		if core.FuncPkg(f).Name() == "structform" && (strings.HasSuffix(core.FuncName(f), "Array") || strings.HasSuffix(core.FuncName(f), "Object") || core.FuncName(f) == "OnBytes") {
 			typeAnnounce(p, r, f)
 		}
 	}
